@@ -38,6 +38,34 @@ TStep == /\ IsEv("step") /\ st # "closed" /\ Keep
               [] r.send = "other" ->      \* the statement only requires the close; no status response though
                    /\ r.got # "response" /\ r.closed /\ st' = "closed"
 
-TNext == TReset \/ TStep
+(* A pipelined run: the client wrote all its packets before reading anything.  The proxy must
+   produce exactly the outputs of the lockstep machine, in order, and then close. *)
+RECURSIVE Expect(_, _)
+\* expected output list for the remaining client packets from state s; each element is
+\* [got, echo, opt] where opt = TRUE means the output may be missing (ping before any request)
+Expect(s, sends) ==
+    IF sends = <<>> \/ s = "closed" THEN <<>>
+    ELSE LET x == Head(sends) IN
+         CASE x.k = "req" /\ s = "awaiting" -> <<[got |-> "response", echo |-> <<>>, opt |-> FALSE]>> \o Expect("responded", Tail(sends))
+           [] x.k = "req" /\ s = "responded" -> <<>>
+           [] x.k = "ping" /\ s = "responded" -> <<[got |-> "pong", echo |-> x.payload, opt |-> FALSE]>>
+           [] x.k = "ping" /\ s = "awaiting" -> <<[got |-> "pong", echo |-> x.payload, opt |-> TRUE]>>
+           [] x.k = "other" -> <<>>
+
+\* does every client packet sequence end in a close?  (only a lone request leaves it open)
+EndsClosed(s, sends) == \E i \in 1..Len(sends) : sends[i].k # "req" \/ (\E j \in 1..(i-1) : sends[j].k = "req")
+
+OutOK(o, e) == /\ o.got = e.got
+               /\ e.got = "pong" => o.echo = e.echo
+               /\ e.got = "response" => (o.wellformed /\ o.protocol = Adv(cp) /\ o.online = online)
+
+TPipe == /\ IsEv("pipe") /\ st = "awaiting" /\ Keep /\ st' = "closed"
+         /\ LET e == Expect("awaiting", Rec.sends)
+                o == Rec.outs
+            IN /\ \/ (Len(o) = Len(e) /\ \A i \in 1..Len(e) : OutOK(o[i], e[i]))
+                  \/ (Len(e) >= 1 /\ e[Len(e)].opt /\ Len(o) = Len(e) - 1 /\ \A i \in 1..Len(o) : OutOK(o[i], e[i]))
+               /\ EndsClosed("awaiting", Rec.sends) => Rec.closed
+
+TNext == TReset \/ TStep \/ TPipe
 TSpec == TInit /\ [][TNext]_tv
 =============================================================================
